@@ -552,6 +552,44 @@ class XGen:
 XIN = [0.0, 1.0, -1.0, 0.5, 2.0, -0.25, 3.0, 0.1, 10.0, -3.5]
 
 
+def sibling_closure_cases(ck, n_cases, n_samples):
+    """several closures created in ONE frame that share a local: writers and readers (inc/get, tick/read pairs), called in varying
+    orders, in dsp, in a maker function returning the closures in a tuple, or made once at global scope (response to seeded change
+    C18b: a capture 'by value' that looks only at the closure being built)"""
+    out = []
+    for i in range(n_cases):
+        r = ck.rng.fork(("C18sib", i))
+        init = r.choice(["0.0", "1.0", "0.5", "100.0"])
+        step = r.choice(["1.0", "0.125", "2.5", "(-1.0)"])
+        nread = r.range(1, 2)
+        writer = r.choice(["| | { sv = sv + %s\n sv }" % step, "|d| { sv = sv * 2.0 + d\n 0.0 }", "| | { let o = sv\n sv = sv + %s\n o }" % step])
+        wcall = "wr(%s)" % r.choice(["1.0", "0.25"]) if writer.startswith("|d|") else "wr()"
+        readers = [r.choice(["| | { sv * 10.0 }", "|y| { y + sv }", "| | { sv }"]) for _ in range(nread)]
+        rcalls = [("rd%d(%s)" % (k, r.choice(["3.0", "0.5"])) if rd.startswith("|y|") else "rd%d()" % k) for k, rd in enumerate(readers)]
+        order = r.below(3)      # reader created before / after the writer; calls: writer first, reader first, interleaved
+        defs = ["let wr = " + writer] + ["let rd%d = %s" % (k, rd) for k, rd in enumerate(readers)]
+        if order == 1:
+            defs = defs[1:] + defs[:1]
+        calls = [wcall] + rcalls
+        if r.chance(1, 2):
+            calls = rcalls[:1] + [wcall] + rcalls[1:] + ([rcalls[0]] if r.chance(1, 2) else [])
+        else:
+            calls = calls + [rcalls[0]]
+        where = r.below(3)
+        if where == 0:          # everything inside dsp (the shared local is re-created on every sample)
+            src = "fn dsp(){\n  let sv = %s\n  %s\n  %s\n}\n" % (init, "\n  ".join(defs), " + ".join("(%s) * %d.0" % (c, 10 ** k) for k, c in enumerate(calls)))
+        elif where == 1:        # a maker returns the closures; made once at global scope and called from dsp
+            names = ["wr"] + ["rd%d" % k for k in range(nread)]
+            src = ("fn mk(){\n  let sv = %s\n  %s\n  (%s)\n}\nlet (%s) = mk()\nfn dsp(){\n  %s\n}\n"
+                   % (init, "\n  ".join(defs), ", ".join(names), ", ".join(names), " + ".join("(%s) * %d.0" % (c, 10 ** k) for k, c in enumerate(calls))))
+        else:                   # the maker is called inside dsp on every sample
+            names = ["wr"] + ["rd%d" % k for k in range(nread)]
+            src = ("fn mk(a){\n  let sv = a\n  %s\n  (%s)\n}\nfn dsp(){\n  let (%s) = mk(%s)\n  %s\n}\n"
+                   % ("\n  ".join(defs), ", ".join(names), ", ".join(names), init, " + ".join("(%s) * %d.0" % (c, 10 ** k) for k, c in enumerate(calls))))
+        out.append(mk_case("sibling", "sib%d" % i, src, n_samples))
+    return out
+
+
 def xgen_cases(ck, n_cases, n_samples):
     out = []
     for i in range(n_cases):
@@ -1244,7 +1282,7 @@ def run(ck):
         cases.append(c)
     fixtures = fixture_cases()
     cases += (fixtures + corpus_cases() + name_cases(ck, quick) + probe_cases() + lmmm_cases(ck, n_gen, n_samples)
-              + xgen_cases(ck, n_x, 12 if quick else 32))
+              + xgen_cases(ck, n_x, 12 if quick else 32) + sibling_closure_cases(ck, 60 if quick else 800, 8))
 
     ast_idx = [i for i, c in enumerate(cases) if c["prog"] is not None]
     mres = {}
